@@ -836,7 +836,7 @@ class MaskDomain(Domain):
         return self._mask.pattern
 
     def match_domain(self, host: str) -> bool:
-        return self._mask.fullmatch(host) is not None
+        return self._mask.fullmatch(host.lower()) is not None
 
 
 class MatchedSubAppResource(PrefixedSubAppResource):
